@@ -53,6 +53,10 @@ CLAIMED = {
    technique="TLA+ association-list / sequence model (Collections.tla) explored by TLC over all insert/remove/get histories and index classes; every history replayed through eval with all intermediate versions kept alive",
    text="TLC explores every history of map insert/remove/get up to a depth over a key universe that crosses all cell types (and over int-only and string-only universes), keeping every intermediate version, with the invariant that a map holds one value per key under the language's equality; plus vector and string words at every index class (negative, out of range, beyond the machine range). Every history is replayed through eval: the predicted stack contains every version of the map and every get result, so both wrong results and a changed old version are mismatches. One recorded known finding (keys that Ord for Cell cannot order collide) is matched by signature; histories whose keys are all ints or all strings must match exactly.",
    note="Maps are compared as sets of pairs; sort is judged on integers only; NaN is never a key."),
+ "C13": dict(cat="model_checking", design="5/C13",
+   technique="TLA+ dictionary table (Words.tla) from which TLC generates the matrix word x tagged positions x tag map x depth; twin runs on the real crate validated by TLC against the observational trace specification Trace_TagObs",
+   text="TLC generates from the dictionary table every combination of word, non-empty subset of argument positions to tag, tag map (empty, one pair, the formatting tag, a tag whose value is itself tagged) and depth (the argument itself or an element inside a container argument). Each case is executed as a twin on the real crate; TLC validates the recorded pairs against a trace specification stating that the observations (results with every tag stripped at every depth, error class, output, variables) are equal and that results of computing words carry no tags.",
+   note="One sample value per argument type; about 130 word/type rows are tabulated (the tag words and, for the formatting tag, the printing words are excluded by the property itself)."),
 }
 
 PENDING_REASON = "check not built yet in this build session (planned, DESIGN.md section 12); no claim is made for it"
